@@ -265,18 +265,30 @@ package playlist
 //@ end
 
 //@ func MultivariantRendition.unmarshal
-//@   props C15 C16
+//@   props C09 C14 C15 C16
 //@   requires t.Type == ""
 //@   modifies *t
 //@   loop 1 invariant t.Type == "" || t.Type == "AUDIO" || t.Type == "VIDEO" || t.Type == "SUBTITLES" || t.Type == "CLOSED-CAPTIONS"
 //@   ensures result == nil ==> t.GroupID != "" && (t.Type == "AUDIO" || t.Type == "VIDEO" || t.Type == "SUBTITLES" || t.Type == "CLOSED-CAPTIONS")
+// C14 / C09: every attribute is read into the field it is written from (ghost enumeration of the attribute map)
+//@   loop 1 invariant 0 <= iterpos() && iterpos() <= iterlen()
+//@   loop 1 invariant forall(j, (0 <= j && j < iterpos()) ==> ((iterkey(j) == "GROUP-ID" ==> t.GroupID == attrs[iterkey(j)]) && (iterkey(j) == "LANGUAGE" ==> t.Language == attrs[iterkey(j)])
+//@        && (iterkey(j) == "NAME" ==> t.Name == attrs[iterkey(j)]) && (iterkey(j) == "DEFAULT" ==> t.Default == (attrs[iterkey(j)] == "YES"))
+//@        && (iterkey(j) == "AUTOSELECT" ==> t.Autoselect == (attrs[iterkey(j)] == "YES")) && (iterkey(j) == "FORCED" ==> t.Forced == (attrs[iterkey(j)] == "YES"))
+//@        && (iterkey(j) == "CHANNELS" ==> (t.Channels != nil && *t.Channels == attrs[iterkey(j)])) && (iterkey(j) == "URI" ==> (t.URI != nil && *t.URI == attrs[iterkey(j)]))
+//@        && (iterkey(j) == "INSTREAM-ID" ==> (t.InStreamID != nil && *t.InStreamID == attrs[iterkey(j)]))))
 //@ end
 
 //@ func MultivariantVariant.unmarshal
-//@   props C15 C16
+//@   props C09 C14 C15 C16
 //@   requires contains(va, "\n")
 //@   modifies *v
 //@   ensures result == nil ==> v.URI != ""
+// C14 / C09: every textual attribute is read into the field it is written from (ghost enumeration of the attribute map)
+//@   loop 1 invariant 0 <= iterpos() && iterpos() <= iterlen()
+//@   loop 1 invariant forall(j, (0 <= j && j < iterpos()) ==> ((iterkey(j) == "RESOLUTION" ==> v.Resolution == attrs[iterkey(j)]) && (iterkey(j) == "VIDEO" ==> v.Video == attrs[iterkey(j)])
+//@        && (iterkey(j) == "AUDIO" ==> v.Audio == attrs[iterkey(j)]) && (iterkey(j) == "SUBTITLES" ==> v.Subtitles == attrs[iterkey(j)])
+//@        && (iterkey(j) == "CLOSED-CAPTIONS" ==> v.ClosedCaptions == attrs[iterkey(j)])))
 //@ end
 
 //@ func Media.Unmarshal
